@@ -44,8 +44,62 @@ var indexReg []*indexEntry
 var indexFrozen bool
 
 type indexEntry struct {
-	st *trie.SlimTrie
-	si *index.SlimIndex
+	st   *trie.SlimTrie
+	si   *index.SlimIndex
+	home bool // st IS &si.SlimTrie: the instance lives inside the index struct
+}
+
+// newIndexHome moves an instance into an index.SlimIndex, the way
+// index.NewSlimIndex keeps it (embedded by value), and returns the pointer to
+// the embedded trie: from then on the SlimIndex is the object the "user" holds
+// across the whole history (loads through si.Unmarshal, reads through si.Get /
+// si.RangeGet), and st-level calls act on the same memory.
+func newIndexHome(st *trie.SlimTrie) *trie.SlimTrie {
+	si := &index.SlimIndex{SlimTrie: *st, DataReader: offsetReader{}}
+	return adoptIndexHome(si)
+}
+
+func adoptIndexHome(si *index.SlimIndex) *trie.SlimTrie {
+	if si.DataReader == nil {
+		si.DataReader = offsetReader{}
+	}
+	if curSim == nil && !indexFrozen {
+		indexReg = append(indexReg, &indexEntry{st: &si.SlimTrie, si: si, home: true})
+	}
+	return &si.SlimTrie
+}
+
+// homeOf: the index an instance lives in (nil: a plain *trie.SlimTrie).
+func homeOf(st *trie.SlimTrie) *index.SlimIndex {
+	for _, e := range indexReg {
+		if e.home && e.st == st {
+			return e.si
+		}
+	}
+	return nil
+}
+
+// forgetIndexCopy drops the by-value index copy registered for st (not a home):
+// the copy is a snapshot of the struct, stale as soon as st is loaded again.
+func forgetIndexCopy(st *trie.SlimTrie) {
+	if curSim != nil || indexFrozen {
+		return
+	}
+	for i, e := range indexReg {
+		if !e.home && e.st == st {
+			indexReg = append(indexReg[:i], indexReg[i+1:]...)
+			return
+		}
+	}
+}
+
+func dropIndexHome(st *trie.SlimTrie) {
+	for i, e := range indexReg {
+		if e.home && e.st == st {
+			indexReg = append(indexReg[:i], indexReg[i+1:]...)
+			return
+		}
+	}
 }
 
 type offsetReader struct{}
